@@ -8,8 +8,8 @@ import GoldModel.Lemmas.ProgRoundTrip
 * statements — assignment `lhs = e` (also `-=`, `+=`, `:=`; `lhs` an identifier), expression
   statement, `return e`, `exit`/`break`/`continue`, `var x : T`, and the blocks
   `if e … [elseif e …]* [else …] endif`, `while e … endwhile`, `loop … endloop`,
-  `for i = e to|downto e [step e] … endfor`, whose bodies are statement LISTS of any length nested
-  to any depth;
+  `for i = e to|downto e [step e] … endfor`, `foreach e … endfor`, `repeat … until e`, whose bodies
+  are statement LISTS of any length nested to any depth;
 * declarations — `proc Name [( [const|var|inout] p : T, … )] … endproc`,
   `func Name [(…)] return T … endfunc`, `const c = literal`, `f : T`, `class aName [(aParent)]`;
 * programs — lists of declarations.
@@ -138,6 +138,12 @@ proc Run(const n : Int, inout m : Int)
 endproc
 func Get return Int
   return count + 1
+  1
+  foreach v in l
+    repeat
+      continue
+    until v
+  endfor
 endfunc
 ```
 -/
@@ -169,15 +175,19 @@ private def sample : Prog Ex :=
       (tk Kind.EndProc "endproc" 18 0),
     .func (tk Kind.Func "func" 19 0) (tk Kind.Identifier "Get" 19 5) none (tk Kind.Return "return" 19 9) (tk Kind.Identifier "Int" 19 16)
       [ .ret (tk Kind.Return "return" 20 2) (.bin (idt "count" 20 9) (tk Kind.Plus "+" 20 15) (num "1" 20 17)),
-        .expr (num "1" 21 2) ]
-      (tk Kind.EndFunc "endfunc" 22 0) ]
+        .expr (num "1" 21 2),
+        .foreachS (tk Kind.ForEach "foreach" 22 2) (.bin (idt "v" 22 10) (tk Kind.In "in" 22 12) (idt "l" 22 15))
+          [ .repeatS (tk Kind.Repeat "repeat" 23 4) [ .ctl (tk Kind.Continue "continue" 24 6) ] (tk Kind.Until "until" 25 4)
+              (idt "v" 25 10) ]
+          (tk Kind.EndFor "endfor" 26 2) ]
+      (tk Kind.EndFunc "endfunc" 27 0) ]
 
 /-- the sample is well formed, so the theorem applies to it … -/
-example : Prog.WF exSpec sample := (prog_wfb_iff sample).mp (by decide +kernel)
+private theorem sample_wf : Prog.WF exSpec sample := (prog_wfb_iff sample).mp (by decide +kernel)
 
 /-- … and says what the parser returns for it: the intended tree, no diagnostics -/
 example : parseGoldNoMemo (Prog.toks exSpec sample) = (Prog.tree exSpec sample, []) :=
-  prog_roundtrip_ex sample ((prog_wfb_iff sample).mp (by decide +kernel))
+  prog_roundtrip_ex sample sample_wf
 
 /-- `WF` is not trivially true: a block closed by the generic `end` would end the method's slice -/
 example : ¬ Prog.WF exSpec
